@@ -42,24 +42,30 @@ RULE = ('schedules: each seeded API-built design (gen_designs + renaming through
         'distinct by (design, observed wirevector_set order, exporter); non-trivial when the design has >= 8 wires '
         'and the configuration produced a set order not seen before for that design. Model tie: generated names '
         '(digit runs with/without leading zeros, reserved words, punctuation, 1024/1025-char names) through the real '
-        'key functions / sanitizer vs Coq, and the identifier sequence of each real text vs the Coq emitter model.')
+        'key functions / sanitizer vs Coq, the identifier sequence of each real Verilog / testbench text vs the Coq emitter '
+        'model, and the real print_trace / print_vcd text vs IO/DeterminismTrace.v BYTE FOR BYTE (trace dict in the '
+        'order the schedule produced it, all bases / compact / include_clock options).')
 IMPORTS = ('From Coq Require Import String Ascii List NArith ZArith Bool.\n'
            'From PyRTL Require Import IO.NatSort IO.Determinism Gen.C20Src IO.DeterminismHarness.\n'
            'Import ListNotations.\nOpen Scope Z_scope.\n')
-COQ_TARGETS = ['theories/IO/DeterminismHarness.vo']
+COQ_TARGETS = ['theories/IO/DeterminismHarness.vo', 'theories/IO/DeterminismTraceHarness.vo']
 ASSUMPTIONS = ['names are ASCII (Python \\d / str.isdigit on non-ASCII digits is out of the model)',
-               'which set orders CPython realises is explored (hash seeds x allocator perturbation), not proved; '
-               'the theorems quantify over ALL orders',
-               'the exporters are modelled as "sanitize in presentation order, then per section filter / sort by key '
-               '/ render"; the renderers themselves (line syntax) are abstract in the theorems and tied only through '
-               'the identifier sequence of the real text',
+               'which set orders CPython realises is explored (hash seeds x allocator perturbation x exporter call '
+               'order), not proved; the theorems quantify over ALL orders',
+               'print_trace / print_vcd: no abstraction left -- the theorems C20_print_trace_bytes_perm_invariant / '
+               'C20_print_vcd_bytes_perm_invariant are about the BYTES (IO/DeterminismTrace.v), and the real text is '
+               'compared with them byte for byte on every sampled (design, schedule)',
+               'output_to_verilog / output_verilog_testbench are modelled as "sanitize in presentation order, then per '
+               'section filter / sort by key / render"; their line renderers are abstract in the theorems and tied '
+               'through the identifier sequence of the real text',
                'output_to_verilog cannot render nand nets: exported designs avoid the nand op',
                'pass pipelines and read-only calls are checked behaviourally only (their correctness proofs belong to '
                'C03/C04/C09)']
 TRUSTED = ['IO/NatSort.v natural_key / lex_cmp / sort_by (hand model of re.split + int + list comparison + sorted), '
-           'IO/Determinism.v sanitize_from / export_text / trace_text / vcd_text (hand model of the emitters\' '
-           'ordering skeleton); py/genfrag_C20.py shape recognition; c20_worker.needs_sanitising / strip_zeros as the '
-           'specification of "needs sanitising" / "ties under natural order"']
+           'IO/Determinism.v sanitize_from / export_text (hand model of the sanitizer and of the Verilog emitters\' '
+           'ordering skeleton); IO/Vcd.v print_trace / print_vcd row layout (C15\'s hand model, here tied byte for byte); '
+           'py/genfrag_C20.py shape recognition; c20_worker.needs_sanitising / strip_zeros / duplicate_identifiers as '
+           'the specification of "needs sanitising" / "ties under natural order" / "declared twice"']
 
 def _no_aslr():
     import platform
@@ -540,6 +546,62 @@ def split_model(zs):
     return [[x for x in s.split('\n') if x != ''] for s in secs]
 
 
+def pack(s):
+    b = s.encode('latin-1')
+    return '0x' + (b.hex() or '0')
+
+
+def pack_text(t, chunk=24):
+    b = t.encode('latin-1')
+    return clist('0x' + b[i:i + chunk].hex() for i in range(0, len(b), chunk))
+
+
+def trace_items_expr(r):
+    return clist('(%s, %d, %s)' % (pack(nm), w, clist('0x%x' % v for v in vals)) for nm, w, vals in r['trace_items'])
+
+
+IMPORTS_BYTES = IMPORTS + 'From PyRTL Require Import IO.DeterminismTrace IO.DeterminismTraceHarness.\n'
+
+
+def tie_trace_bytes(ctx, exp_res, textdir, specs, per_design):
+    """print_trace / print_vcd: the real text must be, BYTE FOR BYTE, what IO/DeterminismTrace.v computes from
+    the trace dict in the order this schedule produced it"""
+    exprs, meta = [], []
+    for spec in specs:
+        key = spec['key']
+        seen = set()
+        for cfg in sorted(exp_res):
+            r = exp_res[cfg].get(key)
+            if r is None or 'worker_error' in r or 'trace_items' not in r:
+                continue
+            order = tuple(r['trace_keys'])
+            if order in seen or len(seen) >= per_design:
+                continue
+            seen.add(order)
+            if any(ord(c) > 255 or c == '\0' for nm, _, _ in r['trace_items'] for c in nm) or not r['trace_items']:
+                continue
+            items = trace_items_expr(r)
+            tt = load_text(textdir, key, 'print_trace', r['sha']['print_trace'])
+            tv = load_text(textdir, key, 'print_vcd', r['sha']['print_vcd'])
+            if tt.startswith('ERR ') or tv.startswith('ERR '):
+                continue
+            exprs.append('trace_bytes_case %s %s %s %s' % (r['opts']['base'], r['opts']['compact'].lower(), items,
+                                                        pack_text(tt)))
+            meta.append(('print_trace', key, cfg, r, len(tt)))
+            exprs.append('vcd_bytes_case %s %s %s' % (r['opts']['include_clock'].lower(), items, pack_text(tv)))
+            meta.append(('print_vcd', key, cfg, r, len(tv)))
+    results = ctx.coq_eval(exprs, IMPORTS_BYTES, tag='c20bytes', shard=6, jobs=12)
+    for (ex, key, cfg, r, n), res in zip(meta, results):
+        ctx.count('byte_exact_tie', ex)
+        ctx.count('byte_exact_tie_bytes', ex, n)
+        ctx.case(('bytes', ex, key, tuple(r['trace_keys'])), nontrivial=len(r['trace_items']) >= 4)
+        if list(res) != [1]:
+            ctx.model_mismatch('%s text of design %s differs from IO/DeterminismTrace.v at byte %s (model %s, real %s)'
+                               % (ex, key, res[1], res[2], res[3]),
+                               {'design': r['key'], 'config': list(cfg), 'exporter': ex, 'opts': r['opts'],
+                                'first_difference': list(res), 'trace_keys': r['trace_keys'][:20]})
+
+
 def tie_emitters(ctx, exp_res, textdir, specs, per_design):
     exprs, meta = [], []
     for spec in specs:
@@ -853,6 +915,8 @@ def run(ctx):
     ctx.notes.append('search_exports done at %.1fs' % (time.time() - t0))
     tie_emitters(ctx, exp_res, textdir, specs, per_design=1 if quick else 2)
     ctx.notes.append('tie_emitters done at %.1fs' % (time.time() - t0))
+    tie_trace_bytes(ctx, exp_res, textdir, specs, per_design=1 if quick else 3)
+    ctx.notes.append('tie_trace_bytes done at %.1fs' % (time.time() - t0))
     pspecs = make_specs(ctx, 9 if quick else 60, 'p', ['plain', 'zeros', 'sani'])
     pconfigs = make_configs(ctx, 2 if quick else 4, [0, 4])
     for s in pspecs:
